@@ -178,6 +178,8 @@ def check(ctx, tier):
     obs += ctx.attempt(lambda c, cl: prio.check(c, cl)[0], ctx, "D-l", default=[])
     obs += ctx.attempt(loops.every_yielded_item_is_kept, ctx, "D-m", "shexer.core.shexing.class_shexer:ClassShexer._build_shapes", "shape", default=[])
     obs += ctx.attempt(loops.one_shape_per_class, ctx, "D-n", default=[])
+    from ..rules import profile as _profile2
+    obs += ctx.attempt(lambda c, cl: _profile2.shapes_tables(c, cl, ('mirror', 'monotone'))[0], ctx, "D-l", default=[])
     exceptions.apply(obs)
     floors = [Floor("threshold filter comparisons", len(tf.filters), 3), Floor("candidate construction sites", n_sites, 3),
               Floor("selection/grouping functions", n_sel, 5)]
